@@ -213,6 +213,15 @@ class CtorWorld(GraphWorld):
             if name == "add_nodes_from" and len(args) == 1:
                 obj.other.append(("add_nodes_from", args[0]))
                 return NONE
+            if name == "add_node" and len(args) == 1 and isinstance(args[0], NodeV):
+                attrs = kwargs.get("__attrs__")
+                if attrs is not None and set(kwargs) == {"__attrs__"}:
+                    obj.other.append(("node_attr_store", args[0], attrs, len(obj.calls)))
+                elif not kwargs:
+                    obj.other.append(("add_node", args[0], len(obj.calls)))
+                else:
+                    raise Unsupported(node, "add_node with attributes %s" % sorted(kwargs))
+                return NONE
             if name == "nodes" and not args and not kwargs:
                 return NodesOf(obj)
             if name == "to_directed" and not args:
@@ -253,6 +262,11 @@ class CtorWorld(GraphWorld):
 
     def calls_so_far(self, g):
         return len(g.calls)
+
+    def splice_kwargs(self, ip, v, node):
+        if isinstance(v, NodeAttrs):
+            return {"__attrs__": v}
+        return None
 
     def contains(self, ip, container, x, node):
         if isinstance(container, AttrOf) and isinstance(container.obj, NewGraph) and container.attr == "_node" and isinstance(x, NodeV):
@@ -465,6 +479,10 @@ class CtorChecker:
                 # the node would exist in the slice without any interaction
                 self.add("C06.nodes", construct, "ghost-node", "node attributes of %r are stored in the slice although none of its "
                          "interactions lies in the window: the slice gains an isolated node" % (key,), wit)
+        for o in val.other:
+            if o[0] == "add_node" and not got:
+                self.add("C06.nodes", construct, "ghost-node", "node %r is added to the slice although none of its interactions lies "
+                         "in the window: the slice gains an isolated node" % (o[1],), wit)
         if len(self.samples) < 4 and want and n == 2:
             self.samples.append(dict(function=construct, world=wit, calls=[(repr(t), repr(e)) for t, e in got]))
 
